@@ -62,7 +62,10 @@ def gen_schema(r, size=1.0):
                 e = r.choice(S["enums"]); f.update(kind="enum", type=e["name"], default=e["values"][0][0])
             elif c < 0.6 and S["structs"]: f.update(kind="struct", type=r.choice(S["structs"])["name"])
             elif c < 0.7: f.update(kind="table", type=r.choice(S["tables"])["name"])
-            elif c < 0.78: f.update(kind="vec_scalar", type=r.choice(list(SCALARS)))
+            elif c < 0.78:
+                f.update(kind="vec_scalar", type=r.choice(list(SCALARS)))
+                if r.random() < 0.2:       # a nested buffer: [ubyte] holding a table or struct root
+                    f.update(type="ubyte", nested=r.choice(S["tables"] + S["structs"])["name"])
             elif c < 0.84: f.update(kind="vec_string")
             elif c < 0.9 and S["structs"]: f.update(kind="vec_struct", type=r.choice(S["structs"])["name"])
             elif c < 0.95: f.update(kind="vec_table", type=r.choice(S["tables"])["name"])
@@ -105,6 +108,7 @@ def render(S):
                   "vec_scalar": "[%s]" % f.get("type"), "vec_string": "[string]", "vec_struct": "[%s]" % f.get("type"),
                   "vec_table": "[%s]" % f.get("type"), "union": f.get("type"), "vec_union": "[%s]" % f.get("type")}[k]
             attrs = [a for a in ("required", "deprecated", "key") if f.get(a)]
+            if f.get("nested"): attrs.append('nested_flatbuffer: "%s"' % f["nested"])
             d = " = %s" % f["default"] if "default" in f else ""
             fs.append("%s:%s%s%s;" % (f["name"], ty, d, " (%s)" % ", ".join(attrs) if attrs else ""))
         out.append("table %s { %s }" % (t["name"], " ".join(fs)))
